@@ -24,7 +24,7 @@ from ..astutil import call_name, calls, dotted, kwarg, last_name, parents, u
 from ..formula import extract, same, same_events, spec
 from ..model import AnalysisError
 from ..paths import enumerate_paths, guards_of
-from ..termflow import ADict, AList, show, vkey
+from ..termflow import ADict, AList, TRUE, as_term, show, vkey
 from . import C20 as _io
 
 SLOT_CLASSES = ("tree.tree.Tree", "tree.tree_node.TreeNode", "tree_holder.TreeHolder", "particle.Particle")
@@ -216,6 +216,9 @@ def rule_D1(ctx):
         for s in ast.walk(r.node):
             if isinstance(s, ast.Assign) and len(s.targets) == 1 and isinstance(s.targets[0], ast.Name) and mentions_key(s.value, k, ()):
                 derived.add(s.targets[0].id)
+            # `for key, lst in tree_dict[k].items():` - the loop variables carry the stored entry
+            if isinstance(s, (ast.For, ast.comprehension)) and mentions_key(s.iter, k, ()):
+                derived.update(x.id for x in ast.walk(s.target) if isinstance(x, ast.Name))
         feeds = []  # expressions that flow into new.<slot>
         aliases = set()
         for s in ast.walk(r.node):
@@ -225,6 +228,11 @@ def rule_D1(ctx):
                         feeds.append(s.value)
                         if isinstance(s.value, ast.Name):
                             aliases.add(s.value.id)
+                    # element store `new.<slot>[key] = value` (or through a local naming the slot's object)
+                    if isinstance(t, ast.Subscript):
+                        b = t.value
+                        if (isinstance(b, ast.Attribute) and b.attr == slot and isinstance(b.value, ast.Name) and b.value.id == new) or (isinstance(b, ast.Name) and b.id in aliases):
+                            feeds.append(s.value)
                 # a local bound *from* the slot (`graph = new._graph`) names the same object
                 if len(s.targets) == 1 and isinstance(s.targets[0], ast.Name) and isinstance(s.value, ast.Attribute) and s.value.attr == slot and isinstance(s.value.value, ast.Name) and s.value.value.id == new:
                     aliases.add(s.targets[0].id)
@@ -437,6 +445,12 @@ def rule_D3(ctx):
     # ---- the reserved entries (outlier set, virtual root) own no payload: the loop skips them before it indexes node_idx
     skip_ok = False
     first = loop.body[0] if loop.body else None
+    # statements ahead of the skip that touch neither the graph, the index map nor a payload do not matter here
+    for cand in loop.body:
+        touches = any((isinstance(x, ast.Name) and x.id in (G, pay)) or (isinstance(x, ast.Call) and last_name(x) == "TreeNode") or (isinstance(x, ast.Subscript) and key_of(x.value) == "node_idx") for x in ast.walk(cand))
+        if isinstance(cand, ast.If) or touches:
+            first = cand
+            break
     if isinstance(first, ast.If) and len(first.body) == 1 and isinstance(first.body[0], ast.Continue) and not first.orelse:
         t = u(first.test)
         names_ok = ("outlier" in t.lower()) and ("root" in t.lower()) and (" or " in t) and ("!=" not in t) and (kvar in names_in_expr(first.test))
@@ -483,6 +497,19 @@ def rule_D3(ctx):
                   construct=r.qualname, stmt="copy %s" % slot)
     data_feeds = [a for c in calls(fn) if isinstance(c.func, ast.Attribute) and c.func.attr == "update" and isinstance(c.func.value, ast.Attribute) and c.func.value.attr == "_data" and isinstance(c.func.value.value, ast.Name) and c.func.value.value.id == new for a in c.args]
     dv = slot_value("_data")
+    # element stores `new._data[k] = <copy of v>` in a loop over the stored node_data entries
+    for l in ast.walk(fn):
+        if isinstance(l, ast.For) and isinstance(l.iter, ast.Call) and isinstance(l.iter.func, ast.Attribute) and l.iter.func.attr == "items" and key_of(l.iter.func.value) == "node_data" and isinstance(l.target, ast.Tuple) and len(l.target.elts) == 2 and all(isinstance(e, ast.Name) for e in l.target.elts):
+            kv, vv = (e.id for e in l.target.elts)
+            for a in ast.walk(l):
+                if isinstance(a, ast.Assign) and len(a.targets) == 1 and isinstance(a.targets[0], ast.Subscript):
+                    b = a.targets[0].value
+                    if isinstance(b, ast.Attribute) and b.attr == "_data" and isinstance(b.value, ast.Name) and b.value.id == new:
+                        inner = _copied(a.value)
+                        if not (isinstance(a.targets[0].slice, ast.Name) and a.targets[0].slice.id == kv):
+                            raise AnalysisError("Tree.from_dict: new._data is filled under a key other than the stored entry's (%s)" % u(a))
+                        # the same obligation, spelled per entry: {k: copy(v) for k, v in tree_dict['node_data'].items()}
+                        data_feeds.append(ast.DictComp(key=ast.Name(id=kv, ctx=ast.Load()), value=a.value, generators=[ast.comprehension(target=l.target, iter=l.iter, ifs=[], is_async=0)]))
     if not data_feeds:
         data_feeds = [dv]
     ok = any(_per_value_copy(f) is not None and key_of(_per_value_copy(f)) == "node_data" for f in data_feeds)
@@ -561,6 +588,23 @@ CHECKED_ENTRY_KEYS = ("iter", "alpha", "log_p_one", "tree")  # "time" is wall-cl
 
 def _entry_of(ex, fi):
     evs = ex.calls(".append")
+    if len(evs) > 1 and all(len(e.args) == 1 and isinstance(e.args[0], ADict) for e in evs) and len({id(e.node) for e in evs}) == 1 and len({vkey(e.recv) for e in evs}) == 1:
+        # one append statement reached in several guard scenarios: the entry is the conditional of the scenarios' entries
+        from ..termflow import g_and, g_covers, make_cond
+
+        keysets = {tuple(sorted(repr(kv) for kv, _ in e.args[0].items.values())) for e in evs}
+        if len(keysets) != 1:
+            raise AnalysisError("%s: the entry's keys depend on the path taken" % fi.qualname)
+        items = {}
+        for kk, (kv, _v) in evs[0].args[0].items.items():
+            if not isinstance(kv, str):
+                raise AnalysisError("%s: non-literal key in the trace entry" % fi.qualname)
+            alts = [(g_and(list(getattr(e, "full_guards", None) or e.guards)), as_term(e.args[0].items[kk][1])) for e in evs]
+            if not g_covers([g for g, _ in alts]):
+                raise AnalysisError("%s: the append is reached in %d guard scenarios that do not visibly cover every path" % (fi.qualname, len(alts)))
+            alts[-1] = (TRUE, alts[-1][1])
+            items[kv] = make_cond(alts)
+        return evs[0], items
     if len(evs) != 1 or len(evs[0].args) != 1 or not isinstance(evs[0].args[0], ADict):
         raise AnalysisError("%s: expected exactly one <trace>.append(<entry dictionary>), found %d" % (fi.qualname, len(evs)))
     d = evs[0].args[0]
@@ -586,7 +630,12 @@ def rule_R1(ctx):
     if len(f.params) != 5:
         ctx.note("append_to_trace now takes %d parameters (%s); the specification binds the first five positionally" % (len(f.params), f.params))
     ex = extract(prog, f)
-    sp = spec(prog, ENTRY_SPEC, f)
+    spec_src = ENTRY_SPEC
+    want_names = ["i", "timer", "trace", "tree", "tree_dist"]
+    if f.params[:5] != want_names and set(want_names) <= set(f.params):
+        # the same parameters in another order (or with further ones): the specification binds them by name
+        spec_src = ENTRY_SPEC.replace("def s(i, timer, trace, tree, tree_dist):", "def s(%s):" % ", ".join(p_ if p_ in want_names else p_ + "=None" for p_ in f.params))
+    sp = spec(prog, spec_src, f)
     ev, got = _entry_of(ex, f)
     sev, want = _entry_of(sp, f)
     same(ctx, "R1", "append_to_trace appends to the trace it is handed", f, ev.recv, sev.recv, "receiver of append")
@@ -1291,6 +1340,13 @@ def run(ctx):
     ctx._own_rules = set(ctx.rule_min)
     imported(ctx, C13.rule_U3)
     _premises.density(ctx)
+    # "an entry restores to the tree that was recorded": what to_dict stores and what from_dict does with it, effect by
+    # effect and in every guard scenario, against the reference semantics of the editor (same rule object as C06/C07.TS)
+    from ._treespec import rule_TS
+
+    ctx.soft(rule_TS, owners=["tree.Tree"], only=["from_dict", "to_dict"], minimum=3)
+    # the trace of a chain holds that chain's entries only (no list shared between calls through a default argument)
+    _premises.no_call_state(ctx)
 
 
 # --------------------------------------------------------------------------- self-test catalogue
